@@ -311,6 +311,42 @@ func runC07(p *core.Prog, r *core.Report) {
 				r.Check(ok, "C07.R2", construct, "a unit is marked from storage only when markFound reports that every module of the stage has its file for that unit", "call not guarded by markFound(...) == true on the same unit", p.Pos(c.Pos()))
 			}
 		}
+		// full snapshots and partials are counted separately: the tally that can mark a unit Completed is not the tally that
+		// can mark it PartialPresent (a unit with one module's full snapshot and another module's partial is neither)
+		tallyOf := map[*types.Func]map[ssa.Value]bool{}
+		core.Instrs(fn, func(in ssa.Instruction) {
+			ifi, isIf := in.(*ssa.If)
+			if !isIf {
+				return
+			}
+			mc, isCall := ifi.Cond.(*ssa.Call)
+			if !isCall || core.CommonCallee(mc.Common()) != mf {
+				return
+			}
+			tb := ifi.Block().Succs[0]
+			for _, x := range tb.Instrs {
+				for _, m := range marks {
+					if core.CalleeOf(x) == m {
+						if tallyOf[m] == nil {
+							tallyOf[m] = map[ssa.Value]bool{}
+						}
+						tallyOf[m][core.ResolveCell(mc.Call.Args[0])] = true
+					}
+				}
+			}
+		})
+		okSep := len(tallyOf[marks[0]]) > 0 && len(tallyOf[marks[1]]) > 0
+		for v := range tallyOf[marks[0]] {
+			if _, isMk := v.(*ssa.MakeMap); !isMk || tallyOf[marks[1]][v] {
+				okSep = false
+			}
+		}
+		for v := range tallyOf[marks[1]] {
+			if _, isMk := v.(*ssa.MakeMap); !isMk {
+				okSep = false
+			}
+		}
+		r.Check(okSep, "C07.R2", "FetchStoresState/separate-tallies", "the per-unit tally of modules having a full snapshot (or output file) and the tally of modules having a partial are distinct maps: a unit is Completed only if every module has the full file, PartialPresent only if every module has the partial", "the same tally feeds both markSegmentCompleted and MarkSegmentPartialPresent", p.Pos(fn.Pos()))
 		if n < 3 {
 			core.Undecide("FetchStoresState: only %d marking calls found", n)
 		}
@@ -553,6 +589,9 @@ func runC07(p *core.Prog, r *core.Report) {
 		r.Check(okWait, "C07.R5", "cmdShutdownWhenComplete/await", "before the scheduler quits it waits for the asynchronous snapshot writes and quits with their error", "WaitAsyncWork not awaited before Quit", p.Pos(sh.Pos()))
 	})
 	r.Guard("C07.R5", "squash-base", "merge base", func() { checkSquashBase(p, r, "C07.R5") })
+	r.Guard("C07.R2", "visits-all", "no silent truncation", func() {
+		checkNoSilentTruncation(p, r, "C07.R2", []loopSite{{pkgStage, "Stages.FetchStoresState", nil}, {pkgStage, "Stages.multiSquash", nil}, {pkgPipe, "Stores.saveStoresSnapshots", nil}})
+	})
 	r.MinInstances("C07.R1", 6)
 	r.MinInstances("C07.R2", 6)
 	r.MinInstances("C07.R3", 7)
